@@ -93,6 +93,11 @@ func (tt twoTag) call(r *gal.Rng) (*walkCall, []expE, string) {
 		}
 		exps = ne
 		over = "+override"
+		if r.Chance(40) { // ... together with a per-call function under the name the override uses (StructForFns with a tag)
+			call.Local = map[string]string{"eq": "L1"}
+			exps[0] = expE{"C", "A", "FNL1"}
+			over = "+override+localfn"
+		}
 	} else if r.Chance(20) && tag != "other" { // a per-call function under a built-in name: this call only
 		call.Local = map[string]string{"to": "L1"}
 		var ne []expE
@@ -119,9 +124,36 @@ type missCache struct{}
 func (missCache) Load(key interface{}) (interface{}, bool) { return nil, false }
 func (missCache) Store(key, value interface{})             {}
 
+// interleaveCache is a legal cache (a sync.Map) that, right after a Store, lets one pending caller run to completion
+// in another goroutine: what a concurrent caller arriving just after the Store would do, made deterministic.
+type interleaveCache struct {
+	m    sync.Map
+	mu   sync.Mutex
+	hook func()
+}
+
+func (c *interleaveCache) Load(key interface{}) (interface{}, bool) { return c.m.Load(key) }
+func (c *interleaveCache) Store(key, value interface{}) {
+	c.m.Store(key, value)
+	c.mu.Lock()
+	h := c.hook
+	c.hook = nil
+	c.mu.Unlock()
+	if h != nil {
+		done := make(chan struct{})
+		go func() { defer close(done); h() }()
+		<-done
+	}
+}
+
+var theInterleaveCache *interleaveCache
+
 func setCache(cfg string) {
 	switch {
 	case cfg == "default":
+	case cfg == "interleave":
+		theInterleaveCache = &interleaveCache{}
+		valid.SetStructTypeCache(theInterleaveCache)
 	case strings.HasPrefix(cfg, "lru"):
 		n, _ := strconv.Atoi(cfg[3:])
 		valid.SetStructTypeCache(valid.NewLRU(n))
@@ -169,7 +201,20 @@ func callsWorker(args []string) {
 				tt = types[r.Intn(4)]
 			}
 			call, exps, what := tt.call(r)
+			if theInterleaveCache != nil { // a second caller with the same arguments arrives while the first one stores the type
+				c2 := *call
+				theInterleaveCache.mu.Lock()
+				theInterleaveCache.hook = func() {
+					emitCall(enc, &c2, exps, fmt.Sprintf("%s:%s:arriving-during-store", cfg, what), map[string]interface{}{"cache": cfg, "type": tt.i})
+				}
+				theInterleaveCache.mu.Unlock()
+			}
 			emitCall(enc, call, exps, fmt.Sprintf("%s:%s", cfg, what), map[string]interface{}{"cache": cfg, "type": tt.i})
+			if theInterleaveCache != nil {
+				theInterleaveCache.mu.Lock()
+				theInterleaveCache.hook = nil
+				theInterleaveCache.mu.Unlock()
+			}
 		}
 	case "c12":
 		c12Sequence(r, enc, types, n, cfg)
@@ -240,7 +285,7 @@ func runC08(c *Ctx) error {
 	if c.Thorough {
 		n = 2000
 	}
-	v, err := runWorkers(c, w, "c08", []string{"default", "lru0", "lru1", "lru2", "lru3", "lru8", "syncmap", "miss"}, n)
+	v, err := runWorkers(c, w, "c08", []string{"default", "lru0", "lru1", "lru2", "lru3", "lru8", "syncmap", "miss", "interleave"}, n)
 	if err != nil {
 		return err
 	}
